@@ -187,8 +187,13 @@ carquet_status_t carquet_read_dictionary_page(
     reader->dictionary_count = header->num_values;
 
     if (reader->type == CARQUET_PHYSICAL_BYTE_ARRAY) {
+        /* Every entry needs at least its 4-byte length */
+        if (header->num_values < 0 || (size_t)header->num_values > page_size / 4 + 1) {
+            CARQUET_SET_ERROR(error, CARQUET_ERROR_DECODE, "Invalid dictionary entry count");
+            return CARQUET_ERROR_DECODE;
+        }
         /* For variable length, store raw dictionary data */
-        reader->dictionary_data = malloc(page_size);
+        reader->dictionary_data = malloc(page_size ? page_size : 1);
         if (!reader->dictionary_data) {
             CARQUET_SET_ERROR(error, CARQUET_ERROR_OUT_OF_MEMORY, "Failed to allocate dictionary");
             return CARQUET_ERROR_OUT_OF_MEMORY;
@@ -197,7 +202,7 @@ carquet_status_t carquet_read_dictionary_page(
         reader->dictionary_size = page_size;
 
         /* Build offset table for O(1) BYTE_ARRAY lookup */
-        reader->dictionary_offsets = malloc((size_t)header->num_values * sizeof(uint32_t));
+        reader->dictionary_offsets = malloc(((size_t)header->num_values + 1) * sizeof(uint32_t));
         if (!reader->dictionary_offsets) {
             free(reader->dictionary_data);
             reader->dictionary_data = NULL;
@@ -233,8 +238,14 @@ carquet_status_t carquet_read_dictionary_page(
         }
     } else {
         /* Fixed size values */
-        size_t dict_size = value_size * header->num_values;
-        reader->dictionary_data = malloc(dict_size);
+        size_t dict_size = value_size * (size_t)header->num_values;
+        if (value_size == 0 || header->num_values < 0 ||
+            (size_t)header->num_values > page_size / value_size) {
+            CARQUET_SET_ERROR(error, CARQUET_ERROR_DECODE,
+                "Dictionary page too small for %d values", header->num_values);
+            return CARQUET_ERROR_DECODE;
+        }
+        reader->dictionary_data = malloc(dict_size ? dict_size : 1);
         if (!reader->dictionary_data) {
             CARQUET_SET_ERROR(error, CARQUET_ERROR_OUT_OF_MEMORY, "Failed to allocate dictionary");
             return CARQUET_ERROR_OUT_OF_MEMORY;
@@ -398,7 +409,8 @@ carquet_status_t carquet_read_data_page_v1(
                 int64_t decoded = carquet_rle_decode_all(
                     ptr, remaining, bit_width, indices, non_null_count);
 
-                if (decoded < 0) {
+                if (decoded < non_null_count) {
+                    /* fewer indices than values: the rest of the buffer is uninitialised */
                     CARQUET_SET_ERROR(error, CARQUET_ERROR_DECODE, "Failed to decode dictionary indices");
                     return CARQUET_ERROR_DECODE;
                 }
@@ -584,6 +596,52 @@ void carquet_column_reader_release_retired_pages(carquet_column_reader_t* reader
  * parser therefore must not be a constant.
  */
 
+/* Sizes and counts in a page header come from the file. They are used for
+ * allocations, pointer arithmetic and copies, so they are checked once here. */
+static carquet_status_t validate_page_header(
+    const parquet_page_header_t* page_header,
+    carquet_error_t* error) {
+
+    if (page_header->compressed_page_size < 0 || page_header->uncompressed_page_size < 0) {
+        CARQUET_SET_ERROR(error, CARQUET_ERROR_INVALID_PAGE, "Negative page size");
+        return CARQUET_ERROR_INVALID_PAGE;
+    }
+    if (page_header->type == CARQUET_PAGE_DATA &&
+        page_header->data_page_header.num_values < 0) {
+        CARQUET_SET_ERROR(error, CARQUET_ERROR_INVALID_PAGE, "Negative value count in data page");
+        return CARQUET_ERROR_INVALID_PAGE;
+    }
+    if (page_header->type == CARQUET_PAGE_DICTIONARY &&
+        page_header->dictionary_page_header.num_values < 0) {
+        CARQUET_SET_ERROR(error, CARQUET_ERROR_INVALID_PAGE, "Negative value count in dictionary page");
+        return CARQUET_ERROR_INVALID_PAGE;
+    }
+    if (page_header->type == CARQUET_PAGE_DATA_V2) {
+        /* The decoder below implements the v1 layout only; reading a v2 page
+         * through it would misinterpret levels and values. */
+        CARQUET_SET_ERROR(error, CARQUET_ERROR_NOT_IMPLEMENTED, "Data page v2 is not supported");
+        return CARQUET_ERROR_NOT_IMPLEMENTED;
+    }
+    return CARQUET_OK;
+}
+
+/* mmap / buffer: the page body must lie inside the mapping */
+static carquet_status_t check_page_body_mmap(
+    const carquet_reader_t* file_reader,
+    int64_t page_offset,
+    size_t header_size,
+    int32_t compressed_page_size,
+    carquet_error_t* error) {
+
+    uint64_t body_start = (uint64_t)page_offset + (uint64_t)header_size;
+    if (body_start > (uint64_t)file_reader->file_size ||
+        (uint64_t)compressed_page_size > (uint64_t)file_reader->file_size - body_start) {
+        CARQUET_SET_ERROR(error, CARQUET_ERROR_INVALID_PAGE, "Page data extends past the end of the file");
+        return CARQUET_ERROR_INVALID_PAGE;
+    }
+    return CARQUET_OK;
+}
+
 /* mmap / buffer: everything from the page offset to the end of the file */
 static carquet_status_t parse_page_header_mmap(
     const carquet_reader_t* file_reader,
@@ -596,10 +654,19 @@ static carquet_status_t parse_page_header_mmap(
         CARQUET_SET_ERROR(error, CARQUET_ERROR_INVALID_PAGE, "Page offset outside the file");
         return CARQUET_ERROR_INVALID_PAGE;
     }
-    return parquet_parse_page_header(
+    carquet_status_t status = parquet_parse_page_header(
         file_reader->mmap_data + offset,
         file_reader->file_size - (size_t)offset,
         page_header, header_size, error);
+    if (status != CARQUET_OK) {
+        return status;
+    }
+    status = validate_page_header(page_header, error);
+    if (status != CARQUET_OK) {
+        return status;
+    }
+    return check_page_body_mmap(file_reader, offset, *header_size,
+                                page_header->compressed_page_size, error);
 }
 
 /* stdio: start with a small window, widen it while the parser fails and the
@@ -641,7 +708,10 @@ static carquet_status_t parse_page_header_fread(
             buf, got, page_header, header_size, error);
         free(heap_buf);
 
-        if (status == CARQUET_OK || got < window || window >= ((size_t)16 << 20)) {
+        if (status == CARQUET_OK) {
+            return validate_page_header(page_header, error);
+        }
+        if (got < window || window >= ((size_t)16 << 20)) {
             return status;
         }
         window *= 8;
